@@ -391,9 +391,13 @@ class RxnWorld(BaseWorld):
             nu = nu / -nu[ridx]
             return nu, ridx
 
+        lo, hi = [m.copy()], [m.copy()]     # element-wise range of the running composition over all partial steps
+
         def apply(mem, src, dst):
             nu, ridx = nu_of(mem)
             dst += src[ridx] * mem['X'] * boost * nu
+            lo[0] = np.minimum(lo[0], dst)
+            hi[0] = np.maximum(hi[0], dst)
 
         kind = spec['kind']
         ms = spec['members']
@@ -413,6 +417,9 @@ class RxnWorld(BaseWorld):
                 apply(mem, feed, m)
             for mem in ms[half:]:
                 apply(mem, m.copy(), m)
+        # how far each entry travelled during the call: an entry that went up and came back down to (almost) zero
+        # carries the rounding error of the large intermediate, not of its small end value
+        self.ref_travel = hi[0] - lo[0]
         return m
 
     def to_R(self, name, rows):
@@ -618,7 +625,7 @@ class RxnWorld(BaseWorld):
         feasible = self._clearly_feasible(want)
         # a species consumed down to (almost) exactly zero: rounding in the library's own arithmetic (done in
         # the reaction's basis, kg for 'wt') decides on which side of its -1e-12 threshold it lands
-        if bool(((want < 1e-9 * scale) & (want < np.asarray(m0) - 1e-12)).any()):
+        if bool(((want < 1e-9 * scale) & ((want < np.asarray(m0) - 1e-12) | (self.ref_travel > 1e-12))).any()):
             feasible = False
         if exc is not None:
             if plan is not None and plan['fired']:
@@ -724,7 +731,8 @@ class RxnWorld(BaseWorld):
             self.stats['probe:negligible_negative_cleanup_expected'] += 1
         infeasible = bool((want < -1e-7 * scale).any())
         feasible = self._clearly_feasible(want)
-        if bool(((want < 1e-9 * scale) & (want < vals - 1e-12)).any()):
+        travel = self.ref_travel * (MW_R if spec['basis'] == 'wt' else 1.0)
+        if bool(((want < 1e-9 * scale) & ((want < vals - 1e-12) | (travel > 1e-12))).any()):
             feasible = False
         try:
             obj(arr)
